@@ -516,7 +516,7 @@ class ImmutableVersion(dns.zone.Version):
             )
             right_key = None
         closest_encloser = dns.name.Name(
-            name[-max(left_comparison[2], right_comparison[2]) :]
+            name[len(name) - max(left_comparison[2], right_comparison[2]) :]
         )
         return Bounds(
             name,
